@@ -310,7 +310,7 @@ func runReuse(c reuseCase) (f *vh.Failure) {
 		e.pipe.Feed(rc.Packet{Type: rc.BufResponse, Channel: uint16(id), Status: rc.StatEOM, Body: []byte{rc.TokDone, 0, 0, 0, 0, 7, 0, 0, 0}}.Bytes())
 	}
 	got := 0
-	deadline := time.Now().Add(3 * time.Second)
+	deadline := time.Now().Add(20 * time.Second)
 	for got < 2*len(closedIDs) && time.Now().Before(deadline) {
 		if err := e.conn.VerifConnErr(); err != nil {
 			got++
@@ -412,7 +412,7 @@ func runFlood(c floodCase) (f *vh.Failure) {
 	// the consumer: every call either yields the package or one of the connection's errors
 	errs := 0
 	var got tds.Package
-	deadline := time.Now().Add(3 * time.Second)
+	deadline := time.Now().Add(20 * time.Second)
 	for got == nil && time.Now().Before(deadline) {
 		wctx, cancel := context.WithTimeout(e.bg, time.Second)
 		p, err := ch.NextPackage(wctx, true)
@@ -426,13 +426,13 @@ func runFlood(c floodCase) (f *vh.Failure) {
 		}
 	}
 	if got == nil {
-		return vh.Failf("C12/delivery-stops-after-stray-packets", "%+v: after %d packets for channels nobody has, the response for channel %d was not delivered within 3 s (%d connection errors reported)", c, c.Stray, ch.VerifID(), errs)
+		return vh.Failf("C12/delivery-stops-after-stray-packets", "%+v: after %d packets for channels nobody has, the response for channel %d was not delivered within 20 s (%d connection errors reported)", c, c.Stray, ch.VerifID(), errs)
 	}
 	if _, ok := got.(*tds.ReturnStatusPackage); !ok {
 		return vh.Failf("C12/wrong-delivery", "%+v: channel %d received %T", c, ch.VerifID(), got)
 	}
 	// the remaining errors
-	for dl := time.Now().Add(2 * time.Second); errs < c.Stray && time.Now().Before(dl); {
+	for dl := time.Now().Add(20 * time.Second); errs < c.Stray && time.Now().Before(dl); {
 		if e.conn.VerifConnErr() != nil {
 			errs++
 		} else {
